@@ -180,16 +180,21 @@ func vSigner(alg jwt.Algorithm, key []byte) jwt.Signer {
 	return s
 }
 
-func newVServer(cfg vSrvCfg) (s *vServer, err error) {
+func newVServer(cfg vSrvCfg) (*vServer, error) {
+	verifier, err := jwt.NewVerifierHS(jwt.HS256, vKey)
+	if err != nil {
+		return nil, err
+	}
+	return newVServerKeys(cfg, vSigner(jwt.HS256, vKey), verifier)
+}
+
+// newVServerKeys builds the server under test around the given signer and verifier.
+func newVServerKeys(cfg vSrvCfg, signer jwt.Signer, verifier jwt.Verifier) (s *vServer, err error) {
 	defer func() {
 		if r := recover(); r != nil {
 			err = fmt.Errorf("panic while building the server: %v\n%s", r, debug.Stack())
 		}
 	}()
-	verifier, verr := jwt.NewVerifierHS(jwt.HS256, vKey)
-	if verr != nil {
-		return nil, verr
-	}
 	c := DefaultConfig()
 	c.Address, c.Port, c.SkipAuth = "127.0.0.1", "0", cfg.AuthOff
 	if cfg.CORS {
@@ -199,7 +204,7 @@ func newVServer(cfg vSrvCfg) (s *vServer, err error) {
 	if err := c.Validate(); err != nil {
 		return nil, err
 	}
-	srv := server(&c, vSigner(jwt.HS256, vKey), verifier)
+	srv := server(&c, signer, verifier)
 	if cfg.Metrics {
 		if err := srv.WithMetrics(); err != nil {
 			return nil, err
@@ -1007,6 +1012,8 @@ type vCase struct {
 	History []string `json:"history,omitempty"`
 	Step    int      `json:"step,omitempty"`
 	Variant int      `json:"token_variant,omitempty"`
+	// node-keys part only
+	KeyScenario string `json:"key_scenario,omitempty"`
 }
 
 type vVerdict struct {
@@ -1074,11 +1081,11 @@ func TestVerifC19(t *testing.T) {
 		"every truncation of an admin token and single-bit flips of it (quick: one bit per signature byte and one per 4 header/payload bytes; thorough: every bit)) x transport {http header, http ?token=, http batch, websocket} x server configuration " +
 		"{auth on, auth on + CORS, auth off (+ metrics in thorough)}. A cell is distinct by (configuration, transport, credential, method) and non-trivial when the " +
 		"server gave a decisive answer (stub reached / 'missing permission' / 401); channel methods over plain http are counted as trivial. " +
-		"History part: see coverage.history_part"
+		"History part: see coverage.history_part. Node-keys part: see coverage.node_keys_part"
 	rep.Assumptions = []string{
 		"module implementations are reflective stubs behind the real API structs; the permission proxy, auth handler, token verification, dispatch and transports are the real code",
 		"the perm tag of a method is read from the API struct the node registers; namespaces are attributed to API structs by their exact method sets",
-		"HS256 with a fixed 32-byte key as in nodebuilder/node/auth.go; HMAC/SHA-256 strength itself is not examined",
+		"matrix and history part: HS256 with a fixed 32-byte key injected by the harness; node-keys part: signer and verifier built by the node's own jwtSignerAndVerifier over FS and in-memory keystores; HMAC/SHA-256 strength itself is not examined",
 		"which methods are sensitive is fixed by the committed table /verif/policy/rpc_min_perms.txt (a reading of the property text); methods not listed there are reported UNCLASSIFIED",
 		"literal-claims credentials: what a claim set grants is computed by the harness's reference of the current decoding rule (keys match Allow/Nonce/ExpiresAt case-insensitively, last occurrence wins, unknown keys such as expires_at ignored); a deliberate change of the claim names needs that reference updated",
 		"expiry uses the real clock: in the matrix expired tokens are at least one minute in the past, valid ones 24 h in the future",
@@ -1260,6 +1267,17 @@ func TestVerifC19(t *testing.T) {
 		exhaustive = false
 	}
 
+	// ---- node-keys part: signer/verifier built by the node's own start-up path
+	kst := vRunKeyScenarios(func() string { return t.TempDir() }, func(v *vVerdict, replay vCase) {
+		rep.Violation(v.sig, v.what, replay)
+	})
+	for _, m := range kst.Infra {
+		infra(m)
+	}
+	if !kst.Complete {
+		exhaustive = false
+	}
+
 	// ---- the policy itself: effective level of every method against the committed table
 	classOrder := []string{"none", "class:public", "class:read", "class:read+write", "class:admin"}
 	classLevel := []string{"public", "public", "read", "write", "admin"}
@@ -1335,6 +1353,19 @@ func TestVerifC19(t *testing.T) {
 	}
 	rep.Count(evals, int64(len(nontrivial)), contexts, evals)
 	rep.Count(hst.Cells, hst.Decisive, int64(hst.Run), hst.Cells)
+	rep.Count(kst.Cells, kst.Decisive, kst.Contexts, kst.Cells)
+	rep.Set("node_keys_part", map[string]any{
+		"what": "signer, verifier and node module come out of the node's own fx wiring (node.ConstructModule -> jwtSignerAndVerifier(keystore)); the rpc.Server built by the " +
+			"node's constructor around that pair is driven with tokens signed with the secret read back from the keystore, tokens minted by node.AuthNew / AuthNewWithExpiry, " +
+			"tokens from the provided signer, and tokens signed with foreign keys (all-zero, all-0xff, one byte, other random) for each of the four levels x one representative " +
+			"method per declared perm level x 4 transports; oracle unchanged",
+		"scenarios": kst.Scenarios, "credentials_per_scenario": kst.Creds, "methods": kst.Methods, "cells": kst.Cells, "cells_decisive": kst.Decisive,
+		"outcome_histogram": kst.Outcomes, "outcomes_per_scenario": kst.PerScenario, "cells_reached": kst.Reached, "cells_kept_out": kst.KeptOut,
+		"complete": kst.Complete, "wall_s": kst.Wall,
+	})
+	if kst.Sample != nil {
+		rep.AddSample(kst.Sample)
+	}
 	rep.Set("history_part", map[string]any{
 		"what": "every sequence over the event alphabet of length 1..max_len that contains at least one wait, each on its own fresh server (auth on), " +
 			"real time; every use = 1 representative method per declared perm level x 4 transports, judged by the stateless oracle at the time of the use " +
@@ -1429,6 +1460,43 @@ func vReplay(t *testing.T, rep *vx.Report, path string) {
 		t.Fatalf("replay: %v", err)
 	}
 	cs := doc.Replay
+	if cs.KeyScenario != "" {
+		got := 0
+		var last *vVerdict
+		for i := 0; i < 5; i++ {
+			hit := false
+			_, _, err := vRunKeyScenario(cs.KeyScenario, t.TempDir(), func(tr string, c vCred, m *vMethod, o vObs, v *vVerdict, inf string) {
+				if tr != cs.Transport || c.Name != cs.Cred.Name || m.Name != cs.Method {
+					return
+				}
+				if i == 0 {
+					fmt.Printf("REPLAY-STEP %s %s cred=%q %s -> hit=%v response=%s %s\n", cs.KeyScenario, tr, c.Name, m.Name, o.Hit, o.Resp.Class, o.Resp.Detail)
+				}
+				if v != nil {
+					last, hit = v, true
+				}
+			})
+			if err != nil {
+				t.Fatalf("replay: %v", err)
+			}
+			if hit {
+				got++
+			}
+		}
+		rep.Count(5, 2, 5, 5)
+		rep.AddSample(cs)
+		switch {
+		case got == 5:
+			fmt.Printf("REPLAY-RESULT violation reproduced 5/5: %s\n", last.what)
+			rep.Violation(last.sig, last.what, cs)
+		case got == 0:
+			fmt.Println("REPLAY-RESULT no violation")
+		default:
+			t.Fatalf("NONDETERMINISM: violation reproduced %d/5", got)
+		}
+		rep.Finish()
+		return
+	}
 	if len(cs.History) > 0 {
 		got := 0
 		var last *vVerdict
